@@ -143,3 +143,172 @@ Example graph_example :
   /\ (reduce (value xinterp (Scalar 0%Q) xg s 6%nat) == -5)%Q
   /\ outdated xg s 4%nat = true.
 Proof. cbv zeta. repeat split; vm_compute; reflexivity. Qed.
+
+(* ---- the graph builder's step: appending the three total nodes -------------------------------------
+   GraphBuilder.build_model calls _add_model_log_lik_node, _add_model_log_prior_node,
+   _add_model_log_prob_node: three Calc(_reduced_sum, *inputs) nodes whose inputs are selected from
+   the nodes / variables gathered so far.  A node of the user's graph carries an optional tag
+   "is an instance of Dist" with its class and the flags of its variable. *)
+Section Builder.
+Variable F : Type.
+Variable fsum : F.
+
+Record dtag := mkTag { g_kind : dkind; g_var : option varinfo }.
+Record tnode := mkTN { tn : node F; ttag : option dtag }.
+
+Definition tag_prob (t : dtag) : bool := isinstance_Dist (g_kind t).
+Definition tag_has_dist (t : dtag) : bool := match g_kind t with KNoDist => false | _ => true end.
+Definition tag_lik (t : dtag) : bool :=
+  match g_var t with Some v => tag_has_dist t && observed v | None => false end.
+Definition tag_prior (t : dtag) : bool :=
+  match g_var t with Some v => tag_has_dist t && parameter v | None => false end.
+Definition on_tag (p : dtag -> bool) (t : tnode) : bool :=
+  match ttag t with Some x => p x | None => false end.
+
+Fixpoint positions_from {A} (p : A -> bool) (i : nat) (l : list A) : list nat :=
+  match l with
+  | [] => []
+  | a :: r => if p a then i :: positions_from p (S i) r else positions_from p (S i) r
+  end.
+Definition positions {A} (p : A -> bool) (l : list A) : list nat := positions_from p 0 l.
+
+Definition total_node (p : dtag -> bool) (tg : list tnode) : node F :=
+  mkNode KCached (positions (on_tag p) tg) fsum.
+
+Definition with_totals (tg : list tnode) : graph F :=
+  map tn tg ++ [total_node tag_lik tg; total_node tag_prior tg; total_node tag_prob tg].
+
+Definition pos_lik (tg : list tnode) : nat := length tg.
+Definition pos_prior (tg : list tnode) : nat := S (length tg).
+Definition pos_prob (tg : list tnode) : nat := S (S (length tg)).
+
+Lemma positions_from_spec {A} (p : A -> bool) (l : list A) : forall i k,
+  In k (positions_from p i l) <-> exists a, i <= k /\ nth_error l (k - i) = Some a /\ p a = true.
+Proof.
+  induction l as [|a r IH]; intros i k; cbn [positions_from].
+  - split; [intros []|]. intros (a & _ & E & _). destruct (k - i); discriminate.
+  - assert (R : In k (positions_from p (S i) r) <->
+               exists b, S i <= k /\ nth_error r (k - S i) = Some b /\ p b = true) by apply IH.
+    destruct (p a) eqn:Pa.
+    + cbn [In]. rewrite R. split.
+      * intros [<-|(b & L & E & Pb)].
+        -- exists a. rewrite Nat.sub_diag. repeat split; auto.
+        -- exists b. repeat split; [lia| |exact Pb].
+           replace (k - i) with (S (k - S i)) by lia. exact E.
+      * intros (b & L & E & Pb). destruct (Nat.eq_dec i k) as [->|N]; [left; reflexivity|right].
+        exists b. repeat split; [lia| |exact Pb].
+        replace (k - i) with (S (k - S i)) in E by lia. exact E.
+    + rewrite R. split.
+      * intros (b & L & E & Pb). exists b. repeat split; [lia| |exact Pb].
+        replace (k - i) with (S (k - S i)) by lia. exact E.
+      * intros (b & L & E & Pb). destruct (Nat.eq_dec i k) as [->|N].
+        -- rewrite Nat.sub_diag in E. cbn [nth_error] in E. inversion E. subst. congruence.
+        -- exists b. repeat split; [lia| |exact Pb].
+           replace (k - i) with (S (k - S i)) in E by lia. exact E.
+Qed.
+
+(* the inputs of a total node are exactly the selected positions ... *)
+Lemma positions_spec {A} (p : A -> bool) (l : list A) (k : nat) :
+  In k (positions p l) <-> exists a, nth_error l k = Some a /\ p a = true.
+Proof.
+  unfold positions. rewrite positions_from_spec. rewrite Nat.sub_0_r. split.
+  - intros (a & _ & E & Pa). exists a. auto.
+  - intros (a & E & Pa). exists a. repeat split; [lia|exact E|exact Pa].
+Qed.
+
+(* ... each exactly once *)
+Lemma positions_from_NoDup {A} (p : A -> bool) (l : list A) : forall i, NoDup (positions_from p i l).
+Proof.
+  induction l as [|a r IH]; intros i; cbn [positions_from]; [constructor|].
+  destruct (p a); [|apply IH]. constructor; [|apply IH].
+  rewrite positions_from_spec. intros (b & L & _). lia.
+Qed.
+
+Lemma positions_NoDup {A} (p : A -> bool) (l : list A) : NoDup (positions p l).
+Proof. apply positions_from_NoDup. Qed.
+
+Lemma positions_lt {A} (p : A -> bool) (l : list A) (k : nat) : In k (positions p l) -> k < length l.
+Proof.
+  rewrite positions_spec. intros (a & E & _). apply nth_error_Some. rewrite E. discriminate.
+Qed.
+
+Lemma with_totals_nth_old (tg : list tnode) (k : nat) : k < length tg ->
+  nth_error (with_totals tg) k = nth_error (map tn tg) k.
+Proof. intros H. unfold with_totals. apply nth_error_app1. rewrite map_length. exact H. Qed.
+
+Lemma with_totals_nth_new (tg : list tnode) (j : nat) :
+  nth_error (with_totals tg) (length tg + j) =
+  nth_error [total_node tag_lik tg; total_node tag_prior tg; total_node tag_prob tg] j.
+Proof.
+  unfold with_totals. rewrite nth_error_app2; rewrite map_length; [|lia].
+  f_equal. lia.
+Qed.
+
+Theorem with_totals_wf (tg : list tnode) : wf (map tn tg) -> wf (with_totals tg).
+Proof.
+  intros W k n E. destruct (lt_dec k (length tg)) as [L|L].
+  - rewrite (with_totals_nth_old tg k L) in E. exact (W k n E).
+  - replace k with (length tg + (k - length tg)) in E by lia.
+    rewrite with_totals_nth_new in E.
+    assert (T : exists p, n = total_node p tg).
+    { destruct (k - length tg) as [|[|[|j]]]; cbn in E;
+        [injection E as <-; eexists; reflexivity ..|destruct j; discriminate]. }
+    destruct T as (p & ->). split; [|discriminate].
+    apply Forall_forall. intros i Hi. apply positions_lt in Hi. lia.
+Qed.
+
+Variable interp : F -> list sval -> sval.
+Variable dflt : sval.
+
+(* the built model's _model_log_prob: whenever it reports itself up to date it holds (in the model
+   state) the reduced sum of the from-scratch values of ALL nodes that are instances of Dist, each
+   exactly once; likewise _model_log_lik / _model_log_prior over the selected ones *)
+Theorem built_totals (tg : list tnode) (ext0 : list sval) (ops : list (op sval)) :
+  wf (map tn tg) -> means_reduced_sum F interp fsum ->
+  let g := with_totals tg in
+  let s := cur (run interp dflt g ops (init interp dflt g ext0)) in
+  forall (p : dtag -> bool) (k : nat),
+  (p = tag_lik /\ k = pos_lik tg) \/ (p = tag_prior /\ k = pos_prior tg) \/ (p = tag_prob /\ k = pos_prob tg) ->
+  outdated g s k = false ->
+  value interp dflt g s k
+    = Scalar (reduced_sum (map (denote interp dflt g (vals s)) (positions (on_tag p) tg)))
+  /\ getv dflt (vals s) k = value interp dflt g s k
+  /\ NoDup (positions (on_tag p) tg)
+  /\ (forall i, In i (positions (on_tag p) tg) <->
+                exists t x, nth_error tg i = Some t /\ ttag t = Some x /\ p x = true).
+Proof.
+  intros W M g s p k Hk O.
+  assert (E : nth_error g k = Some (total_node p tg)).
+  { unfold g. destruct Hk as [(-> & ->)|[(-> & ->)|(-> & ->)]].
+    - unfold pos_lik. rewrite <- (Nat.add_0_r (length tg)). rewrite with_totals_nth_new. reflexivity.
+    - unfold pos_prior. replace (S (length tg)) with (length tg + 1) by lia.
+      rewrite with_totals_nth_new. reflexivity.
+    - unfold pos_prob. replace (S (S (length tg))) with (length tg + 2) by lia.
+      rewrite with_totals_nth_new. reflexivity. }
+  pose proof (with_totals_wf tg W) as Wg. fold g in Wg.
+  destruct (total_node_is_sum F interp dflt g Wg ext0 ops k (total_node p tg) E eq_refl M O) as (V1 & V2).
+  repeat split.
+  - exact V1.
+  - exact V2.
+  - apply positions_NoDup.
+  - rewrite positions_spec. intros (t & Et & Pt). unfold on_tag in Pt.
+    destruct (ttag t) as [x|] eqn:Tx; [|discriminate]. exists t, x. auto.
+  - intros (t & x & Et & Tx & Px). apply positions_spec. exists t. split; [exact Et|].
+    unfold on_tag. rewrite Tx. exact Px.
+Qed.
+
+End Builder.
+
+(* non-vacuity of [built_totals]: the concrete model above IS the builder's output on the tagged user
+   graph (mu, y, prior of mu flagged parameter, likelihood of y flagged observed) *)
+Definition xtg : list (tnode xsym) :=
+  [ mkTN xsym (mkNode KValue [] XVal) None; mkTN xsym (mkNode KValue [] XVal) None;
+    mkTN xsym (mkNode KCached [0%nat] XPrior) (Some (mkTag KDist (Some (mkVar false true))));
+    mkTN xsym (mkNode KCached [0%nat; 1%nat] XLik) (Some (mkTag KDist (Some (mkVar true false)))) ].
+
+Example builder_example :
+  with_totals xsym XSum xtg = xg
+  /\ wf (map (tn xsym) xtg)
+  /\ positions (on_tag xsym tag_prob) xtg = [2%nat; 3%nat]
+  /\ pos_prob xsym xtg = 6%nat.
+Proof. split; [reflexivity|split; [apply wfb_wf; reflexivity|split; reflexivity]]. Qed.
